@@ -126,6 +126,24 @@ func c05Try(r *core.Run, worker int, kind string, x []byte, aux int, idKey []byt
 	return true
 }
 
+// c05SchemeMixups: a properly AUTHORISED transient key of one Ed25519-family scheme whose outer
+// signature was made with the same key material under the other scheme (type 8 = Ed25519ph signs the
+// SHA-512 prehash, type 7 = pure Ed25519). mk builds the forged structure from the offline block and
+// the signing function.
+func c05SchemeMixups(idKey refmodel.KeyPair, destSig int, emit func(class string, off refmodel.Offline, signer refmodel.KeyPair)) {
+	if destSig != 7 && destSig != 11 {
+		return
+	}
+	for _, d := range []struct{ declared, used int }{{8, 7}, {7, 8}} {
+		tk := gen.Key(d.declared, 670)
+		o := refmodel.Offline{Expires: gen.OfflineExp, TransType: d.declared, TransKey: tk.Pub}
+		o.Sig = refmodel.Sign(idKey, o.SignedData())
+		other := tk
+		other.Type = d.used
+		emit(fmt.Sprintf("transient-declared-type-%d-signed-under-scheme-%d", d.declared, d.used), o, other)
+	}
+}
+
 // c05Forgeries builds the key/offline-block forgeries for one signed base.
 func c05Forgeries(s gen.Signed, emit func(class, detail string, b []byte)) {
 	attacker := gen.Key(7, 666)
@@ -199,6 +217,14 @@ func c05Forgeries(s gen.Signed, emit func(class, detail string, b []byte)) {
 			f.Sig = sign(pure, refmodel.StoreLS2, f.Bytes())
 			emit("ed25519ph-transient-signed-with-pure-ed25519", "", f.Bytes())
 		}
+		c05SchemeMixups(s.IDKey, v.Dest.SigType, func(class string, o refmodel.Offline, signer refmodel.KeyPair) {
+			f := v
+			f.Flags |= 1
+			f.Offline = &o
+			f.Sig = nil
+			f.Sig = sign(signer, refmodel.StoreLS2, f.Bytes())
+			emit(class, "", f.Bytes())
+		})
 		// signature by a different key / identity key swapped / wrong store-type prefix
 		{
 			f := v
@@ -253,6 +279,14 @@ func c05Forgeries(s gen.Signed, emit func(class, detail string, b []byte)) {
 			f.Sig = sign(s.Signer, refmodel.StoreMeta, f.Bytes())
 			emit("genuine-offline-block-under-another-identity(after-verifying-the-genuine-set)", "", f.Bytes())
 		}
+		c05SchemeMixups(s.IDKey, v.Dest.SigType, func(class string, o refmodel.Offline, signer refmodel.KeyPair) {
+			f := v
+			f.Flags |= 1
+			f.Offline = &o
+			f.Sig = nil
+			f.Sig = sign(signer, refmodel.StoreMeta, f.Bytes())
+			emit(class, "", f.Bytes())
+		})
 		{
 			o := refmodel.Offline{Expires: gen.OfflineExp, TransType: 7, TransKey: attackerT.Pub}
 			o.Sig = refmodel.Sign(otherID, o.SignedData())
@@ -310,6 +344,14 @@ func c05Forgeries(s gen.Signed, emit func(class, detail string, b []byte)) {
 			f.Sig = sign(s.Signer, refmodel.StoreELS, f.Bytes())
 			emit("genuine-offline-block-under-another-identity(after-verifying-the-genuine-set)", "", f.Bytes())
 		}
+		c05SchemeMixups(s.IDKey, v.SigType, func(class string, o refmodel.Offline, signer refmodel.KeyPair) {
+			f := v
+			f.Flags |= 1
+			f.Offline = &o
+			f.Sig = nil
+			f.Sig = sign(signer, refmodel.StoreELS, f.Bytes())
+			emit(class, "", f.Bytes())
+		})
 	case refmodel.RouterInfo:
 		f := v
 		f.Sig = nil
